@@ -25,8 +25,8 @@ inductive V where
   deriving Repr, Inhabited
 
 inductive Tm where
-  | orig (i : Nat)                         -- `$i` as it was when the action started
-  | arg (i : Nat)                          -- `$i` as the action leaves it (stores applied)
+  | argAt (k i : Nat)                      -- `$i` as it is after the first k stores of the action (read at that point)
+  | arg (i : Nat)                          -- `$i` itself: what the action leaves behind (all stores applied)
   | cur                                    -- yylex.(*Parser).currentToken
   | nil
   | fld (t : Tm) (k : Nat)                 -- t.(*K).F, F the k-th field
@@ -36,8 +36,14 @@ inductive Tm where
   | cat (a b : Tm)                         -- append(a, b...)
   | idx0 (t : Tm)                          -- t[0]
   | last (t : Tm)                          -- t[len(t)-1]
+  | tail (t : Tm)                          -- t[1:len(t)]
+  | init (t : Tm)                          -- t[:len(t)-1]
   | bytes (pre : List Nat) (t : Tm)        -- t.Value, possibly prefixed
   | pos (comb : Nat) (args : List Tm)      -- builder.New…Position(args…)
+  /-- php5 member-access fold: `for n in l: if n is a K with (K, f) ∈ tbl { n.f = acc; n.Position = NodesPosition(acc, n); acc = n }` -/
+  | chain (acc l : Tm) (tbl : List (Nat × Nat))
+  /-- php5 `$$…$a`: `for i from last downto 0: l[i].f = inner; l[i].Position = NodesPosition(l[i], inner); inner = l[i]`; the outermost node -/
+  | nest (l inner : Tm) (tbl : List (Nat × Nat))
   deriving Repr, Inhabited
 
 inductive Cond where
@@ -45,6 +51,7 @@ inductive Cond where
   | lenEq (t : Tm) (n : Nat)
   | kindIs (t : Tm) (k : Nat)
   | atoi (t : Tm)                          -- strconv.Atoi(string(t.Value)) succeeds
+  | intOff (t : Tm) (neg : Bool)           -- intOffset(t.Value, neg): no leading zero, not "-0"
   | not (c : Cond)
   | and (a b : Cond)
   | or (a b : Cond)
@@ -103,15 +110,32 @@ def atoiOk (b : List Nat) : Bool :=
     (let v := ds.foldl (fun a d => a * 10 + (d - 48)) 0
      if neg then v ≤ 9223372036854775808 else v < 9223372036854775808)
 
+/-- `intOffset` of internal/php{5,7}/parser.go -/
+def intOffsetOk (digits : List Nat) (neg : Bool) : Bool :=
+  match digits with
+  | [d] => !(neg && d == 48)
+  | d :: _ :: _ => d != 48
+  | [] => true
+
 structure ECtx where
   toks : Array TokInfo
   combs : List PosComb
   cur : Nat
-  env0 : List V
-  env1 : List V
+  envs : List (List V)        -- envs[k] = the right-hand-side values after the first k stores (envs[0] = as reduced)
   objs : List V
 
 def getArg (l : List V) (i : Nat) : V := if i == 0 then .bad else (l[i - 1]?).getD .bad
+
+def lastEnv : List (List V) → List V
+  | [] => []
+  | [e] => e
+  | _ :: r => lastEnv r
+
+/-- the values after `k` stores; a version that does not exist yet reads the latest one -/
+def envAt (envs : List (List V)) (k : Nat) : List V :=
+  match envs[k]? with
+  | some e => e
+  | none => lastEnv envs
 
 /-- getNodeStartPos / getNodeEndPos / getListStartPos / getListEndPos and `t.Position.X`; `none` = Go panics -/
 def nodeStart : V → Option (Int × Int)
@@ -173,10 +197,39 @@ def evalPos (toks : Array TokInfo) (combs : List PosComb) (comb : Nat) (args : L
     | some (sl, sp), some (el, ep) => .pos sl el sp ep
     | _, _ => .bad
 
+def setNth (l : List V) (k : Nat) (x : V) : List V :=
+  match l, k with
+  | [], _ => []
+  | _ :: r, 0 => x :: r
+  | a :: r, k + 1 => a :: setNth r k x
+
+def dropLastV : List V → List V
+  | [] => []
+  | [_] => []
+  | a :: r => a :: dropLastV r
+
+/-- one step of the member-access fold -/
+def chainStep (toks : Array TokInfo) (combs : List PosComb) (tbl : List (Nat × Nat)) (acc n : V) : V :=
+  match n with
+  | .node k u fs =>
+    match tbl.find? (fun r => r.1 == k) with
+    | some (_, f) => .node k u (setNth (setNth fs f acc) 0 (evalPos toks combs 3 [acc, n]))
+    | none => acc
+  | _ => acc
+
+/-- one step of the `$$…` fold (from the innermost outwards) -/
+def nestStep (toks : Array TokInfo) (combs : List PosComb) (tbl : List (Nat × Nat)) (n inner : V) : V :=
+  match n with
+  | .node k u fs =>
+    match tbl.find? (fun r => r.1 == k) with
+    | some (_, f) => .node k u (setNth (setNth fs f inner) 0 (evalPos toks combs 3 [n, inner]))
+    | none => .bad      -- the type assertion fails
+  | _ => .bad
+
 mutual
 def evalTm (c : ECtx) : Tm → V
-  | .orig i => getArg c.env0 i
-  | .arg i => getArg c.env1 i
+  | .argAt k i => getArg (envAt c.envs k) i
+  | .arg i => getArg (lastEnv c.envs) i
   | .cur => .tok c.cur
   | .nil => .nil
   | .fld t k => match evalTm c t with
@@ -201,10 +254,23 @@ def evalTm (c : ECtx) : Tm → V
   | .last t => match evalTm c t with
     | .list l => (lastV l).getD .bad
     | _ => .bad
+  | .tail t => match evalTm c t with
+    | .list (_ :: r) => .list r
+    | _ => .bad
+  | .init t => match evalTm c t with
+    | .list (x :: r) => .list (dropLastV (x :: r))
+    | _ => .bad
   | .bytes pre t => match evalTm c t with
     | .tok i => .bytes pre i
     | _ => .bad
   | .pos comb args => evalPos c.toks c.combs comb (evalTms c args)
+  | .chain acc l tbl => match evalTm c l with
+    | .nil => evalTm c acc
+    | .list xs => xs.foldl (chainStep c.toks c.combs tbl) (evalTm c acc)
+    | _ => .bad
+  | .nest l inner tbl => match evalTm c l with
+    | .list (x :: r) => (x :: r).foldr (nestStep c.toks c.combs tbl) (evalTm c inner)
+    | _ => .bad
 def evalTms (c : ECtx) : List Tm → List V
   | [] => []
   | t :: ts => evalTm c t :: evalTms c ts
@@ -226,9 +292,45 @@ def evalCond (c : ECtx) : Cond → Bool
         | none => false
       | none => false
     | _ => false
+  | .intOff t neg => match evalTm c t with
+    | .tok i => match c.toks[i]? with
+      | some ti => match ti.val with
+        | some b => intOffsetOk b neg
+        | none => false
+      | none => false
+    | _ => false
   | .not x => !evalCond c x
   | .and a b => evalCond c a && evalCond c b
   | .or a b => evalCond c a || evalCond c b
+
+def setLastV (l : List V) (x : V) : List V :=
+  match l with
+  | [] => []
+  | [_] => [x]
+  | a :: r => a :: setLastV r x
+
+/-- store `x` into field `field` of the node reached from `v` along `path`; a path step is a field number,
+    1000000 (first element of a list) or 1000001 (last element) -/
+def setPath (v : V) (path : List Nat) (field : Nat) (x : V) : V :=
+  match path, v with
+  | [], .node k u fs => if field < fs.length then .node k u (setNth fs field x) else .bad
+  | p :: ps, .node k u fs =>
+    match fs[p]? with
+    | some sub => .node k u (setNth fs p (setPath sub ps field x))
+    | none => .bad
+  | p :: ps, .list (a :: r) =>
+    if p == 1000000 then .list (setPath a ps field x :: r)
+    else if p == 1000001 then
+      match lastV (a :: r) with
+      | some z => .list (setLastV (a :: r) (setPath z ps field x))
+      | none => .bad
+    else .bad
+  | _, _ => .bad
+
+structure PathOut where
+  ret : Option V
+  root : Option V
+  uid : Nat
 
 /-- the node literals of a path, in dependency order (children first): literal `j` gets uid `uid0 + j` -/
 def evalObjs (c : ECtx) (uid0 : Nat) : List ObjLit → List V → List V
@@ -237,48 +339,32 @@ def evalObjs (c : ECtx) (uid0 : Nat) : List ObjLit → List V → List V
     let v := V.node o.kind (uid0 + acc.length) (evalTms { c with objs := acc } o.fields)
     evalObjs c uid0 os (acc ++ [v])
 
-def setNth (l : List V) (k : Nat) (x : V) : List V :=
-  match l, k with
-  | [], _ => []
-  | _ :: r, 0 => x :: r
-  | a :: r, k + 1 => a :: setNth r k x
-
-/-- store `x` into field `field` of the node reached from `v` along `path` -/
-def setPath (v : V) (path : List Nat) (field : Nat) (x : V) : V :=
-  match path, v with
-  | [], .node k u fs => if field < fs.length then .node k u (setNth fs field x) else .bad
-  | p :: ps, .node k u fs =>
-    match fs[p]? with
-    | some sub => .node k u (setNth fs p (setPath sub ps field x))
-    | none => .bad
-  | _, _ => .bad
-
-def applyMuts (c : ECtx) : List TMut → List V → List V
-  | [], env => env
-  | m :: ms, env =>
+/-- the stores of a path, one after the other: every value is computed from the state the stores before it left -/
+def runMuts (toks : Array TokInfo) (combs : List PosComb) (cur uid0 : Nat) (objs : List ObjLit) : List TMut → List (List V) → List (List V)
+  | [], envs => envs
+  | m :: ms, envs =>
+    let c0 : ECtx := { toks := toks, combs := combs, cur := cur, envs := envs, objs := [] }
+    let c : ECtx := { c0 with objs := evalObjs c0 uid0 objs [] }
+    let env := lastEnv envs
     let x := evalTm c m.val
-    applyMuts c ms (if m.arg == 0 then env else setNth env (m.arg - 1) (setPath (getArg env m.arg) m.path m.field x))
+    let env' := if m.arg == 0 then env else setNth env (m.arg - 1) (setPath (getArg env m.arg) m.path m.field x)
+    runMuts toks combs cur uid0 objs ms (envs ++ [env'])
 
-structure PathOut where
-  ret : Option V
-  root : Option V
-  uid : Nat
+/-- evaluation context of a path after all its stores -/
+def pathCtx (toks : Array TokInfo) (combs : List PosComb) (p : TPath) (args : List V) (cur uid0 : Nat) : ECtx :=
+  let envs := runMuts toks combs cur uid0 p.objs p.muts [args]
+  let c1 : ECtx := { toks := toks, combs := combs, cur := cur, envs := envs, objs := [] }
+  { c1 with objs := evalObjs c1 uid0 p.objs [] }
 
 /-- the meaning of one path on the right-hand-side values `args` -/
 def runPath (toks : Array TokInfo) (combs : List PosComb) (p : TPath) (args : List V) (cur uid0 : Nat) : PathOut :=
-  let c0 : ECtx := { toks := toks, combs := combs, cur := cur, env0 := args, env1 := args, objs := [] }
-  let objs0 := evalObjs c0 uid0 p.objs []
-  let env1 := applyMuts { c0 with objs := objs0 } p.muts args
-  let c1 : ECtx := { c0 with env1 := env1 }
-  let objs1 := evalObjs c1 uid0 p.objs []
-  let c2 : ECtx := { c1 with objs := objs1 }
-  { ret := p.ret.map (evalTm c2), root := p.root.map (evalTm c2), uid := uid0 + p.objs.length }
+  let c := pathCtx toks combs p args cur uid0
+  { ret := p.ret.map (evalTm c), root := p.root.map (evalTm c), uid := uid0 + p.objs.length }
 
+/-- a path is the trace of one run through the action: it applies when all its branch conditions, read at
+    the points where the action tests them, hold -/
 def pathApplies (toks : Array TokInfo) (combs : List PosComb) (p : TPath) (args : List V) (cur : Nat) : Bool :=
-  let c0 : ECtx := { toks := toks, combs := combs, cur := cur, env0 := args, env1 := args, objs := [] }
-  -- conditions may mention node literals built before the branch (rebinding of `$i`)
-  let c := { c0 with objs := evalObjs c0 0 p.objs [] }
-  p.conds.all (evalCond c)
+  p.conds.all (evalCond (pathCtx toks combs p args cur 0))
 
 /-- state threaded through the reductions -/
 structure TreeSt where
